@@ -42,7 +42,7 @@ def flift(x):
 
 
 # ---------------------------------------------------------------------------------------------
-@contract('droop.values.fixed.Fixed.__init__', props=['C12'])
+@contract('droop.values.fixed.Fixed.__init__', props=['C12', 'C13'])
 def fixed_init(self: 'Fixed', arg: 'int|Fixed', setval: 'bool' = False):
     if is_int(arg):
         ensures(self._value == ite(setval, arg, arg * fS()))
@@ -52,7 +52,7 @@ def fixed_init(self: 'Fixed', arg: 'int|Fixed', setval: 'bool' = False):
     modifies(self, '_value')
 
 
-@contract('droop.values.fixed.Fixed.__add__', props=['C12'])
+@contract('droop.values.fixed.Fixed.__add__', props=['C12', 'C13'])
 def fixed_add(self: 'Fixed', other: 'int|Fixed') -> 'Fixed':
     "addition is exact"
     requires(fixed_inv())
@@ -61,7 +61,7 @@ def fixed_add(self: 'Fixed', other: 'int|Fixed') -> 'Fixed':
     modifies()
 
 
-@contract('droop.values.fixed.Fixed.__sub__', props=['C12'])
+@contract('droop.values.fixed.Fixed.__sub__', props=['C12', 'C13'])
 def fixed_sub(self: 'Fixed', other: 'int|Fixed') -> 'Fixed':
     "subtraction is exact"
     requires(fixed_inv())
@@ -70,7 +70,7 @@ def fixed_sub(self: 'Fixed', other: 'int|Fixed') -> 'Fixed':
     modifies()
 
 
-@contract('droop.values.fixed.Fixed.__neg__', props=['C12'])
+@contract('droop.values.fixed.Fixed.__neg__', props=['C12', 'C13'])
 def fixed_neg(self: 'Fixed') -> 'Fixed':
     requires(fixed_inv())
     ensures(result._value == -self._value)
@@ -78,7 +78,7 @@ def fixed_neg(self: 'Fixed') -> 'Fixed':
     modifies()
 
 
-@contract('droop.values.fixed.Fixed.__pos__', props=['C12'])
+@contract('droop.values.fixed.Fixed.__pos__', props=['C12', 'C13'])
 def fixed_pos(self: 'Fixed') -> 'Fixed':
     requires(fixed_inv())
     ensures(result._value == self._value)
@@ -86,7 +86,7 @@ def fixed_pos(self: 'Fixed') -> 'Fixed':
     modifies()
 
 
-@contract('droop.values.fixed.Fixed.__abs__', props=['C12'])
+@contract('droop.values.fixed.Fixed.__abs__', props=['C12', 'C13'])
 def fixed_abs(self: 'Fixed') -> 'Fixed':
     requires(fixed_inv())
     ensures(result._value == abs(self._value))
@@ -94,14 +94,14 @@ def fixed_abs(self: 'Fixed') -> 'Fixed':
     modifies()
 
 
-@contract('droop.values.fixed.Fixed.__bool__', props=['C12'])
+@contract('droop.values.fixed.Fixed.__bool__', props=['C12', 'C13'])
 def fixed_bool(self: 'Fixed') -> 'bool':
     requires(fixed_inv())
     ensures(result == (self._value != 0))
     modifies()
 
 
-@contract('droop.values.fixed.Fixed.__mul__', props=['C12'])
+@contract('droop.values.fixed.Fixed.__mul__', props=['C12', 'C13'])
 def fixed_mul(self: 'Fixed', other: 'int|Fixed') -> 'Fixed':
     "multiplication by an int is exact; a product is the exact product rounded toward minus infinity"
     requires(fixed_inv())
@@ -113,7 +113,7 @@ def fixed_mul(self: 'Fixed', other: 'int|Fixed') -> 'Fixed':
     modifies()
 
 
-@contract('droop.values.fixed.Fixed.__floordiv__', props=['C12'])
+@contract('droop.values.fixed.Fixed.__floordiv__', props=['C12', 'C13'])
 def fixed_floordiv(self: 'Fixed', other: 'int|Fixed') -> 'Fixed':
     "a quotient is the exact quotient rounded toward minus infinity"
     requires(fixed_inv())
@@ -127,7 +127,7 @@ def fixed_floordiv(self: 'Fixed', other: 'int|Fixed') -> 'Fixed':
     modifies()
 
 
-@contract('droop.values.fixed.Fixed.mul', props=['C12'])
+@contract('droop.values.fixed.Fixed.mul', props=['C12', 'C13'])
 def fixed_cmul(arg1: 'int|Fixed', arg2: 'int|Fixed', round: 'str|none' = None) -> 'Fixed':
     requires(fixed_inv())
     a = flift(arg1)
@@ -142,7 +142,7 @@ def fixed_cmul(arg1: 'int|Fixed', arg2: 'int|Fixed', round: 'str|none' = None) -
     modifies()
 
 
-@contract('droop.values.fixed.Fixed.div', props=['C12'])
+@contract('droop.values.fixed.Fixed.div', props=['C12', 'C13'])
 def fixed_cdiv(arg1: 'int|Fixed', arg2: 'int|Fixed', round: 'str|none' = None) -> 'Fixed':
     requires(fixed_inv())
     a = flift(arg1)
@@ -158,7 +158,7 @@ def fixed_cdiv(arg1: 'int|Fixed', arg2: 'int|Fixed', round: 'str|none' = None) -
     modifies()
 
 
-@contract('droop.values.fixed.Fixed.muldiv', props=['C12'])
+@contract('droop.values.fixed.Fixed.muldiv', props=['C12', 'C13'])
 def fixed_cmuldiv(arg1: 'int|Fixed', arg2: 'int|Fixed', arg3: 'int|Fixed', round: 'str|none' = None) -> 'Fixed':
     "fused multiply-divide keeps the full precision of the product"
     requires(fixed_inv())
@@ -176,42 +176,42 @@ def fixed_cmuldiv(arg1: 'int|Fixed', arg2: 'int|Fixed', arg3: 'int|Fixed', round
     modifies()
 
 
-@contract('droop.values.fixed.Fixed.__eq__', props=['C12'])
+@contract('droop.values.fixed.Fixed.__eq__', props=['C12', 'C13'])
 def fixed_eq(self: 'Fixed', other: 'Fixed') -> 'bool':
     requires(fixed_inv())
     ensures(result == (self._value == other._value))
     modifies()
 
 
-@contract('droop.values.fixed.Fixed.__ne__', props=['C12'])
+@contract('droop.values.fixed.Fixed.__ne__', props=['C12', 'C13'])
 def fixed_ne(self: 'Fixed', other: 'Fixed') -> 'bool':
     requires(fixed_inv())
     ensures(result == (self._value != other._value))
     modifies()
 
 
-@contract('droop.values.fixed.Fixed.__lt__', props=['C12'])
+@contract('droop.values.fixed.Fixed.__lt__', props=['C12', 'C13'])
 def fixed_lt(self: 'Fixed', other: 'Fixed') -> 'bool':
     requires(fixed_inv())
     ensures(result == (self._value < other._value))
     modifies()
 
 
-@contract('droop.values.fixed.Fixed.__le__', props=['C12'])
+@contract('droop.values.fixed.Fixed.__le__', props=['C12', 'C13'])
 def fixed_le(self: 'Fixed', other: 'Fixed') -> 'bool':
     requires(fixed_inv())
     ensures(result == (self._value <= other._value))
     modifies()
 
 
-@contract('droop.values.fixed.Fixed.__gt__', props=['C12'])
+@contract('droop.values.fixed.Fixed.__gt__', props=['C12', 'C13'])
 def fixed_gt(self: 'Fixed', other: 'Fixed') -> 'bool':
     requires(fixed_inv())
     ensures(result == (self._value > other._value))
     modifies()
 
 
-@contract('droop.values.fixed.Fixed.__ge__', props=['C12'])
+@contract('droop.values.fixed.Fixed.__ge__', props=['C12', 'C13'])
 def fixed_ge(self: 'Fixed', other: 'Fixed') -> 'bool':
     requires(fixed_inv())
     ensures(result == (self._value >= other._value))
